@@ -2,6 +2,7 @@
 from __future__ import annotations
 
 import ast
+import os
 import time
 import traceback
 
@@ -70,6 +71,12 @@ def verify_function(reg: Registry, session, c: Contract) -> FunctionReport:
             rep.paths += n2
     except (Unsupported, TargetNotFound) as e:
         rep.error = f"{type(e).__name__}: {e}"
+    except (AttributeError, TypeError, KeyError, IndexError, NotImplementedError) as e:
+        # the code under check uses a construct on a model value (abstract vector, opaque result, ...) that the
+        # engine has no meaning for: the function is outside the verified subset -> undecided, not a checker crash
+        tb = traceback.extract_tb(e.__traceback__)
+        where = f"{os.path.basename(tb[-1].filename)}:{tb[-1].lineno}" if tb else "?"
+        rep.error = f"Unsupported: the engine cannot interpret this code ({type(e).__name__}: {e} at {where})"
     except Exception:
         rep.crash = traceback.format_exc()
     finally:
